@@ -355,3 +355,8 @@ package orb
 //@ lemma union_is_join: forall a Bound, b Bound, r Bound :: !isempty(a) && !isempty(b) ==> (isUnion(r, a, b) <==> isJoin(r, a, b))
 //@ lemma join_associative: forall a Bound, b Bound, c Bound, ab Bound, bc Bound, r1 Bound, r2 Bound :: nonanB(a) && nonanB(b) && nonanB(c) && isJoin(ab, a, b) && isJoin(r1, ab, c) && isJoin(bc, b, c) && isJoin(r2, a, bc) ==> r1.Min[0] == r2.Min[0] && r1.Min[1] == r2.Min[1] && r1.Max[0] == r2.Max[0] && r1.Max[1] == r2.Max[1]
 //@ lemma fmin_associative: forall x float64, y float64, z float64, m1 float64, m2 float64, r1 float64, r2 float64 :: !isnan(x) && !isnan(y) && !isnan(z) && m1 == fmin(x, y) && r1 == fmin(m1, z) && m2 == fmin(y, z) && r2 == fmin(x, m2) ==> r1 == r2
+
+// orb.Pointer implementations are assumed to have a pure Point() (the property says queries are
+// given read-only pointers); listed as an assumption wherever it is used
+//@ func (Pointer).Point(p)
+//@   pure
